@@ -303,6 +303,17 @@ def check_ring(pid, tier, t0):
         # forgotten drains also occur in the random histories with faults
         rf = random_scenarios(tier, True)
         units.append(run_unit('rand-fault-%s-%d' % (tier, seed()), rf))
+    if pid == 'C06':
+        # a panicking element comparison inside ==, <, partial_cmp, cmp (pairs of buffers from spec/Observers.tla)
+        top = 2 if tier == 'quick' else 3
+        obf = []
+        for n in range(0, top + 1):
+            for m in range(0, top + 1):
+                raw, st = scen.obs_raw(n, m)
+                for k, pair in enumerate(scen.load_raw(raw)):
+                    if min(len(pair['a']['vals']), len(pair['b']['vals'])) > 0:
+                        obf.append(scen.obs_fault_build(pair, 'obf%d_%d-%d' % (n, m, k), k))
+        units.append(run_unit('obs-fault-%s' % tier, obf))
     if pid == 'C17':
         # byte buffers through std::io (every provided method the traits offer is a call the crate may override)
         ios, iostats = io_scenarios(tier, ['std'])
